@@ -14,6 +14,9 @@ Oracle — invariants over what was observed on the wire and at the storage back
   * a turn whose calibrated body and uploads both fit their caps must not be refused with a cap error;
   * producer turn: bytes received by storage during the turn <= external cap, always; with >= 2 data/pointer
     batches the second-to-last must end at offset <= max_response_bytes (encoded bodies: wire <= cap + tail + slack).
+
+Family ``producer_codec``: 6-14 small, mostly incompressible producer batches read through a response codec under a
+small wire cap, so the cap has to cut the continuation turns (whose whole body is the codec's output).
 """
 
 from __future__ import annotations
